@@ -328,7 +328,8 @@ Definition get_loop (s : estate) (i : nat) : option loop := nth_error (e_loops s
 
 Definition enq_loop (l : loop) (t : task) : loop := l_set_q l (l_q l ++ [t]).
 
-(* Trigger on loop i (the task is linked even when the eventfd write fails) *)
+(* Trigger on loop i (the task is linked even when the eventfd write fails: the
+   `fails` branches below enqueue it too, on a loop that will never run it) *)
 Definition trigger (s : estate) (i : nat) (t : task) : estate :=
   set_loops s (upd i (fun l => enq_loop l t) (e_loops s)).
 
@@ -575,7 +576,9 @@ Definition do_call (g : nat) (s : estate) (k : call) : option (estate * list evt
         match get_loop s li with
         | None => None
         | Some l =>
-            if fails then (if l_pclosed l then ret (set_next s (e_next s + 1)) ROsErr else None)
+            if fails then (if l_pclosed l
+                           then ret (set_next (trigger s li (TReg (e_next s) (OUser g))) (e_next s + 1)) ROsErr
+                           else None)
             else Some (put_user (set_next (trigger s li (TReg (e_next s) (OUser g))) (e_next s + 1)) g (UEnrollWait false), [])
         end
       else None
@@ -614,7 +617,8 @@ Definition wstep (k : nat) (s : estate) (c : choice) : option (estate * list evt
         let cid := e_next s in
         if fails then
           if loop_pclosed s (w_loop w)
-          then Some (set_next (put (mkWk WDone (w_loop w) (w_opened w) (w_res w + 1)) s) (cid + 1), [(t, KResult false)])
+          then Some (set_next (put (mkWk WDone (w_loop w) (w_opened w) (w_res w + 1))
+                                   (trigger s (w_loop w) (TReg cid (OWorker k)))) (cid + 1), [(t, KResult false)])
           else None
         else
           Some (set_next (put (mkWk WWait (w_loop w) (w_opened w) (w_res w)) (trigger s (w_loop w) (TReg cid (OWorker k)))) (cid + 1), [])
